@@ -24,7 +24,7 @@ TAG_SWARM = "C18/swarm"
 
 TIERS = {
     "quick": dict(enum_scenarios=16, stdio_sites=6, swarm=400, real_lli=12, crash=120),
-    "thorough": dict(enum_scenarios=120, stdio_sites=40, swarm=80000, real_lli=300, crash=8000, real_clang=150, render=1800, verbose_large=300),
+    "thorough": dict(enum_scenarios=120, stdio_sites=40, swarm=80000, real_lli=300, crash=8000, real_clang=150, render=1800, verbose_large=300, overlap=600),
 }
 
 ESC = b"\x1b"
@@ -42,6 +42,7 @@ HARD_ERRNOS = {
     "mkdir": [E.EACCES, E.ENOSPC, E.EROFS],
     "pipe": [E.EMFILE, E.ENFILE],
     "spawn": [E.EAGAIN, E.ENOMEM, E.ENOENT, E.EACCES],
+    "wait": [E.ECHILD],
     "out": [E.EPIPE, E.ENOSPC],
     "err": [E.EPIPE, E.ENOSPC],
 }
@@ -328,7 +329,7 @@ def exec_scenario(sc, wd, plan=None, keep=False, real_lli=False, restart=False, 
     env["VERIF_STUB_MARKER"] = os.path.join(wd, "marker")
     trace_path = os.path.join(wd, "trace.txt")
     env = sim_env(env, entropy=sc.get("entropy", 1), plan=plan, order="child_first" if order == "child_first" else None,
-                  trace=trace_path, clock=(10**12, 1000), pid=4242)
+                  trace=trace_path, clock=(10**12, 1000), pid=sc.get("sim_pid", 4242))
     stdout_kind = sc.get("stdout_kind", "pipe")
     argv = [a.replace("{WD}", wd) for a in argv_of(sc)]     # absolute input paths are written {WD}/... in scenarios
     if stdout_kind == "pipe":
@@ -1063,6 +1064,85 @@ def _real_lli_job(args):
     return {"violations": viol, "runs": 2}
 
 
+def _overlap_job(args):
+    """Two invocations of the tool at the same time, under one fixed schedule:
+    A's backend is started and held at a gate (the stub blocks opening a FIFO),
+    B runs from start to finish, the gate opens and A finishes. Both compile a
+    `main.pn` of their own in directories of their own, with one shared TMPDIR,
+    HOME and (for half of the runs) one shared out-dir parent. Each must show
+    what it shows when it runs alone: status, output, the IR its backend got."""
+    import threading
+    seed, i = args
+    rng = rng_for(seed, "C18/overlap", i)
+    sub = "run" if i % 4 else "build"
+    root = os.path.join(work_root(), "C18", "o%d" % i)
+    shutil.rmtree(root, ignore_errors=True)
+    os.makedirs(os.path.join(root, "shared-tmp"))
+    scs = []
+    for k, word in enumerate((b"alpha\n", b"bravo\n")):
+        force = {"silent": False, "verbose": False, "cell": (0, 0, 0), "color": "never", "arrows": "ascii", "order": "parent_first",
+                 "script": {"read": "all", "exit": 10 + 10 * k + rng.randrange(5), "out": word.hex()} if sub == "run" else {"read": "all", "exit": 0},
+                 "backend_args": False, "link_args": False, "config": "none", "wasm": False, "dash_o": False, "out_dir": "absent"}
+        sc = make_scenario(rng, sub, "valid_single", force)
+        (old,) = list(sc["files"])
+        sc["files"] = {"main.pn": sc["files"][old]}
+        sc["inputs"] = sc["modules"] = ["main.pn"]
+        sc["env"]["TMPDIR"] = os.path.join(root, "shared-tmp")
+        sc["env"]["HOME"] = os.path.join(root, "shared-tmp")
+        sc["sim_pid"] = 4242 + k
+        sc["name"] = "overlap%d:%s:%s" % (i, sub, "AB"[k])
+        scs.append(sc)
+    a, b = scs
+    alone = [exec_scenario(sc, os.path.join(root, "alone" + "AB"[k])) for k, sc in enumerate(scs)]
+    gate = os.path.join(root, "gate")
+    os.mkfifo(gate)
+    a_gated = dict(a)
+    a_gated["script"] = dict(a["script"], gate=gate)
+    box = {}
+    th = threading.Thread(target=lambda: box.update(obs=exec_scenario(a_gated, os.path.join(root, "A"))), daemon=True)
+    th.start()
+    fd = None
+    while th.is_alive() and fd is None:
+        try:
+            fd = os.open(gate, os.O_WRONLY | os.O_NONBLOCK)     # succeeds once A's backend waits at the gate
+        except OSError:
+            time.sleep(0.001)
+    reached = fd is not None
+    ob = exec_scenario(b, os.path.join(root, "B"))
+    if fd is not None:
+        os.write(fd, b"x")
+        os.close(fd)
+    th.join(timeout=TIMEOUT_S + 5)
+    oa = box.get("obs")
+    viol = []
+
+    def same(tag, sc, got, ref):
+        if got is None:
+            viol.append(("overlap_hang", "%s did not finish" % tag))
+            return
+        for key in ("status", "out", "err"):
+            if got[key] != ref[key]:
+                viol.append(("overlap_interference", "%s next to another invocation: %s is %r, alone it is %r" %
+                             (tag, key, got[key][-200:] if key != "status" else got[key], ref[key][-200:] if key != "status" else ref[key])))
+                return
+        if got["stdin"] != ref["stdin"]:
+            viol.append(("overlap_interference", "%s next to another invocation: its backend received other IR than when it runs alone (%s vs %s bytes)" %
+                         (tag, {k: len(v) for k, v in got["stdin"].items()}, {k: len(v) for k, v in ref["stdin"].items()})))
+        elif [(m["id"], m["args"]) for m in got["marker"]] != [(m["id"], m["args"]) for m in ref["marker"]]:
+            viol.append(("overlap_interference", "%s: backend runs %s, alone %s" % (tag, got["marker"], ref["marker"])))
+    same("A (held at the gate while B ran)", a, oa, alone[0])
+    same("B (ran while A's backend was held)", b, ob, alone[1])
+    left = sorted(os.listdir(os.path.join(root, "shared-tmp")))
+    if left:
+        viol.append(("overlap_leftover", "files left in the shared TMPDIR: %s" % left[:5]))
+    shutil.rmtree(root, ignore_errors=True)
+    seen = {}
+    for c, d in viol:
+        seen.setdefault(c, d)
+    return {"violations": [{"class": c, "detail": d, "scenario": sc_json(a), "plan": [], "fault": "overlap", "overlap": [sc_json(a), sc_json(b)], "index": i}
+                           for c, d in seen.items()], "runs": 4, "gate_reached": reached}
+
+
 def _real_clang_job(args):
     """End to end with the real clang: `penne build` must leave an executable
     that behaves like the same program under `penne run` with the real lli."""
@@ -1264,6 +1344,12 @@ def run(tier, seed):
         runs += res["runs"]
         clang_runs += 1
         raw.extend(res["violations"])
+    overlap_runs = overlap_reached = 0
+    for res in parallel_map(_overlap_job, [(seed, i) for i in range(cfg.get("overlap", 24))]):
+        runs += res["runs"]
+        overlap_runs += 1
+        overlap_reached += bool(res["gate_reached"])
+        raw.extend(res["violations"])
     per_class = {}
     jobs = []
     for v in raw:
@@ -1297,6 +1383,8 @@ def run(tier, seed):
         "crash_restart_runs": crash_done,
         "real_lli_cross_checks": lli_runs,
         "real_clang_end_to_end_builds": clang_runs,
+        "overlapping_invocation_pairs": overlap_runs,
+        "overlapping_invocation_pairs_that_reached_the_gate": overlap_reached,
         "fault_kinds_configured": configured,
         "fault_kinds_fired": fired,
         "distinct_syscall_traces": len(traces),
